@@ -8,6 +8,7 @@
 //!   nest_group_join   FutureGroup{ join[c0, c1], join[c2] }             a group whose members are joins
 //!   nest_race_join    (first(join[c0, c1]), c2).race()                  race between a join and a future
 //!   nest_chain_merge  (merge[s0, s1], s2).chain()                       chain whose first input is a merge
+//!   nest_merge_merge  (merge[s0, s1], s2).merge()                       tuple merge whose first input is an array merge (L2: NestStream.tla)
 
 use std::future::Future;
 use std::pin::Pin;
@@ -106,6 +107,10 @@ pub fn build(fam: &str, _cont: &str, _n: usize) -> Result<Box<dyn Cut>, String> 
             // both arms have the same output type behind a box
             let arms: Vec<Pin<Box<dyn Future<Output = Vec<Val>>>>> = vec![Box::pin(j), Box::pin(single)];
             fut_cut(arms.race(), |v: Vec<Val>| RetEv::ready_out(true, rel(v)))
+        }
+        "nest_merge_merge" => {
+            let inner = [ss(0), ss(1)].merge();
+            stream_cut((inner, ss(2)).merge(), |i: Val| RetEv::some_v(i.release(), -1))
         }
         "nest_chain_merge" => {
             let m: Pin<Box<dyn Stream<Item = Val>>> = Box::pin([ss(0), ss(1)].merge());
